@@ -33,7 +33,7 @@ from checks.shrink import Shrinker  # noqa: E402
 from gen.workload import generate  # noqa: E402
 
 DEFAULT_SEED = 20260928
-REPLAY_DIR = os.path.join(HERE, "replays")
+REPLAY_DIR = os.environ.get("VERIF_REPLAY_DIR") or os.path.join(HERE, "replays")
 EVIDENCE_DIR = os.path.join(HERE, "evidence")
 KNOWN = os.path.join(HERE, "known_findings.json")
 
@@ -352,10 +352,11 @@ def main():
         "wall_s": round(wall, 2),
         "violations": len(reported),
     }
-    os.makedirs(EVIDENCE_DIR, exist_ok=True)
-    with open(os.path.join(EVIDENCE_DIR, prop + ".json"), "w") as f:
-        json.dump(ev, f, indent=1, default=str)
-        f.write("\n")
+    if not os.environ.get("VERIF_NO_EVIDENCE"):
+        os.makedirs(EVIDENCE_DIR, exist_ok=True)
+        with open(os.path.join(EVIDENCE_DIR, prop + ".json"), "w") as f:
+            json.dump(ev, f, indent=1, default=str)
+            f.write("\n")
     print("%d simulated runs (%d distinct non-trivial), %d yield points, %d context switches, %.1fs simulated, %.1fs wall, %d runs/hour"
           % (agg.n, len(agg.nontrivial), agg.c["steps"], agg.c["switches"], agg.c["sim_ns"] / 1e9, wall, ev["coverage"]["runs_per_hour"]))
     print("faults fired: %s" % dict(agg.fired))
